@@ -287,12 +287,16 @@ func (c *RemoteClient) Ready(ctx context.Context, nextMessageID uint64) error {
 	logger.InfoWithFields(ctx, []logger.Field{
 		logger.Uint64("next_message_id", nextMessageID),
 	}, "Sending ready message")
+	// The service can start sending as soon as it has the ready message, so the id it will start
+	// from has to be in place before the message is written.
+	previousMessageID := c.nextMessageID.Load()
+	c.nextMessageID.Store(nextMessageID)
 	if err := c.sendDirect(ctx, &Message{Payload: m}); err != nil {
+		c.nextMessageID.Store(previousMessageID)
 		return err
 	}
 	verifPoint("ready.sent")
 
-	c.nextMessageID.Store(nextMessageID)
 	c.handshakeComplete.Store(true)
 	logger.Info(ctx, "Marked handshake complete")
 	handshakeCompleteChannel := c.handshakeCompleteChannel.Load()
